@@ -23,7 +23,7 @@ namespace {
    struct Sinks : ipr::Visitor {
       bool with_classic; int hits = 0; int code = -100; const void* seen = nullptr;
       explicit Sinks(bool c) : with_classic(c) { }
-      void hit(int c, const void* p) { ++hits; code = c; seen = p; }
+      void hit(int c, const ipr::Node* p) { ++hits; code = c; seen = p; }
       void visit(const ipr::Node& n) override { hit(-1, &n); }
       void visit(const ipr::Expr& n) override { hit(-2, &n); }
       void visit(const ipr::Classic& n) override { if (with_classic) hit(-3, &n); else ipr::Visitor::visit(n); }
@@ -61,9 +61,9 @@ namespace {
             Recorder r; base.accept(r);
             vp_assert(r.hits == 1 && r.code == (int)want && r.seen == static_cast<const void*>(&base), 2);   // exactly once, the hook of that class
             Sinks s1(true); base.accept(s1);
-            vp_assert(s1.hits == 1 && s1.code == super_category<I>(true) && s1.seen != nullptr, 3);          // default: nearest abstract super-category
+            vp_assert(s1.hits == 1 && s1.code == super_category<I>(true) && s1.seen == static_cast<const void*>(&base), 3);          // default: the node itself, at its nearest abstract super-category
             Sinks s2(false); base.accept(s2);
-            vp_assert(s2.hits == 1 && s2.code == super_category<I>(false), 4);                               // classic expressions arrive at Expr
+            vp_assert(s2.hits == 1 && s2.code == super_category<I>(false) && s2.seen == static_cast<const void*>(&base), 4);                               // classic expressions arrive at Expr (the node itself, not something it refers to)
 #define VP_VIEW(K) { const ipr::K* p = util::view<ipr::K>(base); if (ipr::Category_code::K == want) vp_assert(p != nullptr && static_cast<const ipr::Node*>(p) == &base, 5); else vp_assert(p == nullptr, 6); }
             VP_CATEGORIES(VP_VIEW)
 #undef VP_VIEW
